@@ -385,6 +385,88 @@ func runC08(r *Run, rng *rand.Rand, thorough bool) {
 			}
 		}
 	}
+	// resharing with late starters: every old member's first message reaches a new member before its Start(). Right
+	// after Start() that member has caught up with everything it holds (it is past round 2 and has answered), so what
+	// it awaits is exactly the old committee (their round-3 messages), as for a member started on time; the whole
+	// run is compared with the two-committee engine model as well.
+	for _, proto := range []string{"eddsa-resharing", "ecdsa-resharing"} {
+		lateSets := [][]int{{0}, {0, 1, 2}}
+		if !thorough {
+			lateSets = lateSets[int(r.Seed)%2 : int(r.Seed)%2+1]
+			if proto == "ecdsa-resharing" {
+				lateSets = [][]int{{2}}
+			}
+		}
+		for _, lateNew := range lateSets {
+			var net *Net
+			nOld := 0
+			if proto == "ecdsa-resharing" {
+				keys := make([]ecdsakeygen.LocalPartySaveData, 3)
+				for i := range keys {
+					keys[i] = eks.keys[i]
+					keys[i].Xi = new(big.Int).Set(eks.keys[i].Xi)
+				}
+				nOld = 3
+				net = ecdsaResharingNet(rng, keys, eks.pids[:3], eks.t, makePIDs([]*big.Int{big.NewInt(8101), big.NewInt(8102), big.NewInt(8103)}, "N"), 1, false, 1)
+			} else {
+				if edErr != nil {
+					continue
+				}
+				nOld = 2
+				net = eddsaResharingNet(rng, cloneEdKeys(edKs.keys[:2]), edKs.pids[:2], 1, makePIDs([]*big.Int{big.NewInt(8101), big.NewInt(8102), big.NewInt(8103)}, "N"), 1)
+			}
+			var late []int
+			for _, k := range lateNew {
+				late = append(late, nOld+k)
+			}
+			waits := map[int][]string{}
+			rec := recordWaiting(nOld, waits, nil)
+			net.OnEvent = func(n *Net, ev *Event, d *Delivery) {
+				rec(n, ev, d)
+				if ev.Kind != "start" {
+					return
+				}
+				for _, l := range late {
+					if n.Nodes[l].Name != ev.Node || ev.Err != "" {
+						continue
+					}
+					// the old committee's first messages were all delivered before this Start()
+					got := 0
+					for _, dl := range n.Delivered {
+						if dl.To == l && dl.From < nOld && shortType(dl.Msg.Type()) == "DGRound1Message" {
+							got++
+						}
+					}
+					// (ECDSA round 2 also awaits the other new members: with several late starters those messages need not
+					// exist yet; the engine-model comparison below pins that case)
+					if got < nOld || proto == "ecdsa-resharing" && len(late) > 1 {
+						continue
+					}
+					var olds []int
+					for _, p := range n.Nodes[l].Party.WaitingFor() {
+						for k := 0; k < nOld; k++ {
+							if string(n.Nodes[k].ID.Key) == string(p.Key) {
+								olds = append(olds, k)
+							}
+						}
+					}
+					r.Assert(len(olds) == nOld, proto+"/late-start/waiting-for", "waiting-for-is-the-exact-awaited-set", func() string {
+						return fmt.Sprintf("%s started after all %d old members' first messages had been delivered to it: it is in %s and awaits old members %v (a member started on time awaits all of them)", ev.Node, nOld, roundOf(n.Nodes[l].Party), olds)
+					})
+				}
+			}
+			st := Strategy{Name: fmt.Sprintf("prestart-new-%v", lateNew), Pick: pickFIFO, PreStart: true, LateStart: late}
+			net.Run(rand.New(rand.NewSource(r.Seed)), st, 500000)
+			r.Evals++
+			r.Dist[proto+"/"+st.Name]++
+			ends := 0
+			for _, nd := range net.Nodes {
+				ends += len(nd.Ends)
+			}
+			r.Assert(ends == len(net.Nodes) && len(net.Panics) == 0, proto+"/late-start/completes", "late-started-run-finishes-once", func() string { return fmt.Sprint(st.Name, net.Panics) })
+			engine2Check(r, proto, net, nOld, waits)
+		}
+	}
 }
 
 // the secret-bearing message types (key shares, MtA ciphertexts and responses, factorisation proofs), per protocol family
